@@ -2,7 +2,7 @@
    Statements only; each is closed by a lemma of coq/proofs and followed by Print Assumptions.
    Model: coq/model/NodeOps.v (step_d/run_d); vocabulary: coq/model/Spec.v. *)
 From Gdsl.Model Require Import Spec.
-From Gdsl.Proofs Require Import NodeD Glue.
+From Gdsl.Proofs Require Import NodeD Glue DegreeU.
 
 (* After ANY history of new/connect/try_connect/disconnect/isolate calls with pairwise distinct keys
    (failing calls, self-loops, parallel edges, repeated disconnect/isolate included) no call panicked and
@@ -40,6 +40,28 @@ Theorem c01_degree_facts :
     (is_leaf h u = true <-> (forall v0 : nat, to_ u (ins h v0) = [])).
 Proof. exact degree_facts. Qed.
 Print Assumptions c01_degree_facts.
+
+(* "Out-/in-degree, root/leaf/orphan predicates ... describe one and the same edge set", as totals: the out-degree of u
+   is the number of incoming entries from u that all nodes together report, the in-degree of u the number of outgoing
+   entries towards u that all nodes together report, and u is an orphan exactly when nobody lists u in either list. *)
+Theorem c01_out_degree_is_what_targets_report :
+  forall (K V E : Type) (h : heap K V E), Mirror h -> Wf h -> forall u : nat,
+    out_degree h u = sum_over (size h) (fun v => length (to_ u (ins h v))).
+Proof. exact out_degree_counts_listings. Qed.
+Print Assumptions c01_out_degree_is_what_targets_report.
+
+Theorem c01_in_degree_is_what_sources_report :
+  forall (K V E : Type) (h : heap K V E), Mirror h -> Wf h -> forall u : nat,
+    in_degree h u = sum_over (size h) (fun v => length (to_ u (outs h v))).
+Proof. exact in_degree_counts_listings. Qed.
+Print Assumptions c01_in_degree_is_what_sources_report.
+
+Theorem c01_orphan_iff_unlisted :
+  forall (K V E : Type) (h : heap K V E), Mirror h -> Wf h -> forall u : nat,
+    is_orphan h u = true <->
+    sum_over (size h) (fun v => length (to_ u (outs h v))) = 0 /\ sum_over (size h) (fun v => length (to_ u (ins h v))) = 0.
+Proof. exact orphan_iff_unlisted. Qed.
+Print Assumptions c01_orphan_iff_unlisted.
 
 (* neighbour lookups: u.is_connected(key v)  <->  u lists an edge to v  <->  v.find_inbound(key u) is Some *)
 Theorem c01_is_connected :
